@@ -30,6 +30,7 @@ import (
 	"context"
 	"encoding/json"
 	"fmt"
+	"net/http"
 	"sort"
 	"sync"
 	"sync/atomic"
@@ -47,7 +48,7 @@ type c07Op struct {
 	E   *common.JEvent   `json:"e,omitempty"`
 	B   int64            `json:"b"`
 	D   *int64           `json:"d"`
-	X   bool             `json:"x,omitempty"` // det: the client disconnects right after sending this operation
+	X   bool             `json:"x,omitempty"`  // det: the client disconnects right after sending this operation
 	St  bool             `json:"st,omitempty"` // disc: the client has stopped reading and goes away without reading what is pending
 }
 
@@ -63,10 +64,10 @@ type c07Msg struct {
 }
 
 type c07Reader struct {
-	Mode  int `json:"mode"`  // 0 fast, 1 jitter, 2 bursty, 3 stalls after K messages
-	K     int `json:"k"`     // mode 3: messages read before stalling
-	Seed  int `json:"seed"`  // jitter stream
-	Pace  int `json:"pace"`  // client: 0 none, 1 yield, 2 short sleeps between operations
+	Mode int `json:"mode"` // 0 fast, 1 jitter, 2 bursty, 3 stalls after K messages
+	K    int `json:"k"`    // mode 3: messages read before stalling
+	Seed int `json:"seed"` // jitter stream
+	Pace int `json:"pace"` // client: 0 none, 1 yield, 2 short sleeps between operations
 }
 
 type c07Case struct {
@@ -76,6 +77,11 @@ type c07Case struct {
 	Script  []c07Op     `json:"script,omitempty"`  // det input
 	Scripts [][]c07Op   `json:"scripts,omitempty"` // conc input, per connection
 	Readers []c07Reader `json:"readers,omitempty"` // conc input
+	// Peer: what the handler's context says about the connection.  "" = nothing (the handler is used
+	// directly); "same" = an *http.Request with the same RemoteAddr for every connection (a relay on a unix
+	// domain socket: every peer is "@"; a reverse proxy: every peer is the proxy); "tcp" = requests with
+	// distinct ip:port addresses
+	Peer string `json:"peer,omitempty"`
 	// observation
 	Hops    []c07Op    `json:"hops"`
 	Outs    [][]c07Msg `json:"outs"`
@@ -110,6 +116,7 @@ type c07World struct {
 	lastRecv atomic.Int64
 	fast     atomic.Bool
 	router   *mocrelay.RouterHandler
+	peer     string
 	ss       []*c07Session
 	mu       sync.Mutex
 	hops     []c07Op
@@ -142,10 +149,10 @@ type c07Session struct {
 	out      []c07Msg
 	reader   c07Reader
 	sdone    atomic.Bool // the client's script is over
-	started  bool // ServeNostr is running / has run (driver only)
-	paused   bool // touched by the driver only
-	gone     bool // disconnected (driver only)
-	dead     bool // a wait expired on this session (driver / its own client only)
+	started  bool        // ServeNostr is running / has run (driver only)
+	paused   bool        // touched by the driver only
+	gone     bool        // disconnected (driver only)
+	dead     bool        // a wait expired on this session (driver / its own client only)
 }
 
 func c07ToMsg(m mocrelay.ServerMsg, st int64) c07Msg {
@@ -166,6 +173,12 @@ func c07ToMsg(m mocrelay.ServerMsg, st int64) c07Msg {
 
 func (w *c07World) newSession(idx int, rd c07Reader) *c07Session {
 	ctx, cancel := context.WithCancel(context.Background())
+	switch w.peer {
+	case "same":
+		ctx = mocrelay.VerifCtxWithRequest(ctx, &http.Request{RemoteAddr: "@", Header: http.Header{}})
+	case "tcp":
+		ctx = mocrelay.VerifCtxWithRequest(ctx, &http.Request{RemoteAddr: fmt.Sprintf("10.0.0.%d:%d", 1+idx%3, 40000+idx), Header: http.Header{}})
+	}
 	s := &c07Session{
 		w: w, idx: idx, ctx: ctx, cancel: cancel,
 		recv:     make(chan mocrelay.ClientMsg),
@@ -565,8 +578,18 @@ func (w *c07World) finish(c *c07Case) {
 	c.Stuck = w.stuck.Load()
 }
 
+func c07GenPeer(r *common.Rand) string {
+	switch x := r.Intn(10); {
+	case x < 3:
+		return "same"
+	case x < 5:
+		return "tcp"
+	}
+	return ""
+}
+
 func c07NewWorld(c *c07Case) *c07World {
-	w := &c07World{router: mocrelay.NewRouterHandler(c.Buf)}
+	w := &c07World{router: mocrelay.NewRouterHandler(c.Buf), peer: c.Peer}
 	w.lastRecv.Store(time.Now().UnixNano())
 	for i := 0; i < c.NC; i++ {
 		rd := c07Reader{}
@@ -775,7 +798,7 @@ func c07GenFilters(r *common.Rand, u common.Universe) []common.JFilter {
 }
 
 func c07GenDet(r *common.Rand) c07Case {
-	c := c07Case{K: "det", NC: 2 + r.Intn(4), Buf: 1 + r.Intn(3)}
+	c := c07Case{K: "det", NC: 2 + r.Intn(4), Buf: 1 + r.Intn(3), Peer: c07GenPeer(r)}
 	nops := 8 + r.Intn(24)
 	u := c07Universe(nops / 3)
 	alive := make([]bool, c.NC)
@@ -853,7 +876,7 @@ func c07GenDet(r *common.Rand) c07Case {
 }
 
 func c07GenConc(r *common.Rand) c07Case {
-	c := c07Case{K: "conc", NC: 2 + r.Intn(7), Buf: 1 + r.Intn(4)}
+	c := c07Case{K: "conc", NC: 2 + r.Intn(7), Buf: 1 + r.Intn(4), Peer: c07GenPeer(r)}
 	u := c07Universe(6)
 	nev := 0
 	for x := 0; x < c.NC; x++ {
@@ -918,7 +941,7 @@ func c07GenFiltersWide(r *common.Rand, u common.Universe) []common.JFilter {
 func c07GenChurn(r *common.Rand) c07Case {
 	n1 := 2 + r.Intn(4)
 	nLate := 1 + r.Intn(3)
-	c := c07Case{K: "det", NC: n1 + nLate, Buf: 1 + r.Intn(3)}
+	c := c07Case{K: "det", NC: n1 + nLate, Buf: 1 + r.Intn(3), Peer: c07GenPeer(r)}
 	nops := 14 + r.Intn(24)
 	u := c07Universe(nops / 3)
 	born := make([]bool, c.NC)
